@@ -720,8 +720,10 @@ def factor_density_matrix(
     if validate:
         t1 = density_matrix_kronecker_product(extracted, remainder)
         product_axes = list(axes) + remaining_axes
-        t2 = transpose_density_matrix_to_axis_order(t1, product_axes)
-        if not np.allclose(t2, t, atol=atol):
+        # Bring `t` into the axis order of the product (extracted axes first), as
+        # `factor_state_vector` does, rather than permuting the product by the same order.
+        t2 = transpose_density_matrix_to_axis_order(t, product_axes)
+        if not np.allclose(t1, t2, atol=atol):
             raise ValueError('The tensor cannot be factored by the requested axes')
     return extracted, remainder
 
